@@ -189,6 +189,9 @@ class Gen:
             maxlen = self.HARD_MAX
         if maxlen is not None:
             small = [i for i in cands if len(world.obs[i].text) <= maxlen]
+            if not small and cands and min(len(world.obs[i].text) for i in cands) > self.HARD_MAX:
+                # only huge values are non-empty: take an empty one rather than operate on a huge one
+                small = [i for i in self.slots_of(world, (S, A)) if len(world.obs[i].text) <= self.HARD_MAX]
             cands = small or [min(cands, key=lambda i: len(world.obs[i].text))] if cands else cands
         if want_formatted:
             fm = [i for i in cands if any(world.obs[i].cells)]
@@ -319,7 +322,7 @@ class Gen:
             if world.obs[slot % len(world.obs)].kind == S and len(world.obs[slot % len(world.obs)].text) <= self.HARD_MAX:
                 k = r.choice(['apply', 'apply', 'remove', 'iadd', 'clear', 'pad', 'clip', 'fmatch', 'assign'])
                 op = getattr(self, 'g_' + k)(world)
-                if op['op'] == k:
+                if op['op'] == k and not (k == 'pad' and op.get('w', 0) > 100):
                     op['r'] = slot
                     if 'ip' in op:
                         op['ip'] = True
